@@ -709,6 +709,34 @@ def task_dur_edges(ctx: Ctx) -> None:
                         ctx.case("dur_unary", {"a": n * unit})
 
 
+def task_constants(ctx: Ctx) -> None:
+    """The named values the types advertise equal the integers their names say (they are the 'documented ranges')."""
+    from pyoda_time import Duration, Instant, Offset
+
+    table = {
+        "Duration.zero": (lambda: Duration.zero.to_nanoseconds(), 0),
+        "Duration.epsilon": (lambda: Duration.epsilon.to_nanoseconds(), 1),
+        "Duration.one_day": (lambda: Duration.one_day.to_nanoseconds(), DAY),
+        "Duration.one_week": (lambda: Duration.one_week.to_nanoseconds(), 7 * DAY),
+        "Duration.min_value": (lambda: Duration.min_value.to_nanoseconds(), DUR_MIN),
+        "Duration.max_value": (lambda: Duration.max_value.to_nanoseconds(), DUR_MAX),
+        "Instant.min_value": (lambda: Instant.min_value._time_since_epoch.to_nanoseconds(), INST_MIN),
+        "Instant.max_value": (lambda: Instant.max_value._time_since_epoch.to_nanoseconds(), INST_MAX),
+        "Offset.zero": (lambda: Offset.zero.seconds, 0),
+        "Offset.min_value": (lambda: Offset.min_value.seconds, -OFF_MAX),
+        "Offset.max_value": (lambda: Offset.max_value.seconds, OFF_MAX),
+    }
+    for name, (get, want) in table.items():
+        try:
+            got = get()
+            if got != want:
+                ctx.fail("constant", {"name": name}, f"constant/{name}", f"{got} != {want}")
+        except Exception as e:  # noqa: BLE001
+            ctx.fail_exc("constant", {"name": name}, e)
+    ctx.bulk(len(table), len(table), "constant:named-values")
+    ctx.sample("constant", {"name": "Duration.one_day"}, True)
+
+
 def tasks(tier: str, seed: int) -> list[Task]:
     mult = 1 if tier == "quick" else 20
     shards = 14
@@ -717,4 +745,5 @@ def tasks(tier: str, seed: int) -> list[Task]:
     step = 129601 // 4 + 1
     t += [Task("task_off_enum", {"lo": -OFF_MAX + i * step, "hi": min(OFF_MAX + 1, -OFF_MAX + (i + 1) * step)}, f"off-{i}") for i in range(4)]
     t.append(Task("task_dur_edges", {}, "dur-edges"))
+    t.append(Task("task_constants", {}, "constants"))
     return t
